@@ -937,6 +937,10 @@ func (h *harness) attach(target string, sh subShape) {
 }
 
 func (h *harness) subscribeUnknown(x string) {
+	if h.c.HasTarget(x) {
+		h.fail("remove-still-known", fmt.Sprintf("HasTarget(%q) is true for a target that is not in the cache", x))
+		return
+	}
 	s := h.start(x, subShapes[0])
 	defer s.st.Cancel()
 	ctx, cancel := context.WithTimeout(context.Background(), watchdog)
@@ -1371,7 +1375,7 @@ func trialBody(r *vlib.Run, trial int, rng *rand.Rand) {
 
 func body(r *vlib.Run) {
 	cache.Now = func() time.Time { return time.Unix(0, now()) }
-	r.ForTrials(mode, r.N(4000, 80000), func(trial int, rng *rand.Rand) { trialBody(r, trial, rng) })
+	r.ForTrials(mode, r.N(4000, 40000), func(trial int, rng *rand.Rand) { trialBody(r, trial, rng) })
 }
 
 func main() {
@@ -1390,7 +1394,7 @@ func main() {
 			"right after Reset a meta/ leaf (flags, eight counters) that was reported before the Reset must still be reported, with the initial value; after UpdateMetadata all ten must be",
 		},
 		QuickShards: 8, ThoroughShards: 16,
-		MinDistinctQuick: 1000, MinDistinctThorough: 20000,
+		MinDistinctQuick: 1000, MinDistinctThorough: 10000,
 		Body: body,
 	})
 }
